@@ -40,7 +40,7 @@ var containers = []containerKind{
 		build: func(rec *gen.Rec, lay gen.Layout, bo binary.ByteOrder, s int) *gen.Doc {
 			return gen.EncodeTIFF(rec, lay, bo, gen.AllDirs)
 		}},
-	{name: "JPEG", imageType: "image/jpeg", nSurround: 8,
+	{name: "JPEG", imageType: "image/jpeg", nSurround: 9,
 		entries: []entryPoint{{"imagemeta.Decode", imagemeta.Decode}, {"imagemeta.DecodeJPEG", imagemeta.DecodeJPEG}},
 		build: func(rec *gen.Rec, lay gen.Layout, bo binary.ByteOrder, s int) *gen.Doc {
 			t := gen.EncodeTIFF(rec, lay, bo, gen.AllDirs)
@@ -63,6 +63,12 @@ var containers = []containerKind{
 				segs = []gen.Seg{gen.SegAPPn(3, 5000), gen.SegPhotoshop(), gen.SegDRI(), gen.SegExif(t)}
 			case 7:
 				segs = []gen.Seg{gen.SegJFXX(), gen.SegXMPExt(), gen.SegExif(t), gen.SegSOF(0xC2)}
+			case 8: // fill bytes before markers
+				e := gen.SegExif(t)
+				e.Fill = 2
+				c := gen.SegCOM()
+				c.Fill = 1
+				segs = []gen.Seg{gen.SegJFIF(), c, e}
 			}
 			d, _ := gen.BuildJPEG(segs, true)
 			return d
